@@ -96,6 +96,7 @@ type Universe struct {
 	garbSeed int64
 
 	eon      *testkeygen.EonKeys
+	pure     []byte // encoded DKG result of the eon (assembly target)
 	mu       sync.Mutex
 	epochKey map[string][]byte
 	sigs     map[string][]byte
@@ -244,8 +245,14 @@ func NewUniverse(seed int64, id int, withEon bool) *Universe {
 		name string
 		max  uint64
 	}{{"instance", math.MaxUint64}, {"eon", math.MaxInt64}, {"slot", math.MaxInt64}, {"txptr", math.MaxInt32}} {
-		v := pickU64(rng, f.max)
-		u.val[f.name] = [2]uint64{v, replacement(rng, v, f.max)}
+		max := f.max
+		if f.name == "eon" && id%2 == 0 {
+			// the core key handler looks the batch config up by int32(eon): universes with an even
+			// number keep the eon inside int32 so that a whole keyper assembly can accept
+			max = math.MaxInt32
+		}
+		v := pickU64(rng, max)
+		u.val[f.name] = [2]uint64{v, replacement(rng, v, max)}
 	}
 	u.ids = map[string][3][][]byte{"gnosis": makeIDs(rng, 52), "service": makeIDs(rng, 32)}
 	u.idlen = map[string][][]byte{
